@@ -87,6 +87,13 @@ def emit_kernel(src, site, mode):
     P = _P()
     fn = src.func(site["file"], site["func"])
     node = P.select(fn, tuple(site["select"]))
+    for step in site.get("path", []):  # descend: positional argument of a call / element of a tuple or list literal
+        if isinstance(node, ast.Call) and step < len(node.args):
+            node = node.args[step]
+        elif isinstance(node, (ast.Tuple, ast.List)) and step < len(node.elts):
+            node = node.elts[step]
+        else:
+            raise _unsupported(f"path step {step} does not exist in {ast.unparse(node)[:80]}")
     orig = ast.unparse(node)
     node2 = ast.fix_missing_locations(_Norm().visit(ast.parse(orig, mode="eval").body))
     pm = dict(site.get("params_map", {}))
